@@ -393,6 +393,27 @@ func c13TextStreams(quick bool) []c13Stream {
 			}
 		}
 	}
+	// many holds of one connection outstanding at once, then all released (the connection's command pools fill up);
+	// one chunk per command so that every command is processed before the next arrives
+	for _, n := range []int{3, 15, 16, 17, 33, 63, 64, 65, 130} {
+		var chunks [][]byte
+		for i := 0; i < n; i++ {
+			chunks = append(chunks, wire.Resp("LOCK", fmt.Sprintf("many%d", i), "LOCK_ID", fmt.Sprintf("m%d", i), "TIMEOUT", "0", "EXPRIED", "30"))
+		}
+		for i := 0; i < n; i++ {
+			chunks = append(chunks, wire.Resp("UNLOCK", fmt.Sprintf("many%d", i), "LOCK_ID", fmt.Sprintf("m%d", i)))
+		}
+		out = append(out, c13Stream{Name: fmt.Sprintf("text/hold-%d-then-release", n), Chunks: chunks})
+		var bin [][]byte
+		bin = append(bin, frame(5, nil))
+		for i := 0; i < n; i++ {
+			bin = append(bin, wire.BinFrame(hapi.Cmd{Type: 1, Req: byte(i), DB: 2, Key: byte(i), Id: byte(i), Expried: 30}))
+		}
+		for i := 0; i < n; i++ {
+			bin = append(bin, wire.BinFrame(hapi.Cmd{Type: 2, Req: byte(i), DB: 2, Key: byte(i), Id: byte(i)}))
+		}
+		out = append(out, c13Stream{Name: fmt.Sprintf("bin/hold-%d-then-release", n), Chunks: bin})
+	}
 	// malformed RESP
 	for i, raw := range []string{"*\r\n", "*-1\r\n", "*0\r\n", "*1\r\n$-1\r\n", "*1\r\n$5\r\nab\r\n", "*2\r\n$3\r\nGET\r\n", "*99999999999\r\n", "$3\r\nGET\r\n", "GET k\r\n", "GET k\n", "\r\n", "*1\r\n$99999999999\r\n", "*1\r\n$3\rGET\r\n", "*1\n$3\nGET\n", "\x00\x00\x00\x00", "*1\r\n$4\r\nPING\r\n*1\r\n$4\r\nPING\r\n", "+OK\r\n", ":1\r\n", "-ERR x\r\n", strings.Repeat("A", 70), strings.Repeat("*1\r\n", 20)} {
 		out = append(out, c13Stream{Name: fmt.Sprintf("text/raw/%d", i), Chunks: [][]byte{[]byte(raw)}})
